@@ -560,6 +560,38 @@ fn run_inner(line: &str) -> String {
             )
         }
         "stabilize" => stabilize_op(arg(1), arg(2), arg(3)),
+        "longspace" => {
+            // longspace|<bytes>|<tail>: a label of about <bytes> bytes (words of 1..7 letters separated by single spaces: nothing
+            // to repair) followed by <tail>; both space rules are compared with a straightforward reference INSIDE the harness
+            // (the list-based Lean model is quadratic on such lengths).  Offsets beyond 16 bits only exist here.
+            use precis_profiles::verif_hooks::is_space_separator;
+            let n: usize = arg(1).parse().unwrap_or_else(|_| proto("usize"));
+            let tail = parse_str(arg(2));
+            let mut s = String::with_capacity(n + 16);
+            let mut k = 0usize;
+            while s.len() < n {
+                let w = 1 + (k * 5) % 7;
+                for j in 0..w { s.push((b'a' + ((k + j) % 26) as u8) as char); }
+                s.push(' ');
+                k += 1;
+            }
+            s.pop();
+            s.push_str(&tail);
+            let mapped: String = s.chars().map(|c| if is_space_separator(c) { ' ' } else { c }).collect();
+            let want_nick: String = mapped.split(' ').filter(|w| !w.is_empty()).collect::<Vec<_>>().join(" ");
+            let want_op: String = s.chars().map(|c| if c != ' ' && is_space_separator(c) { ' ' } else { c }).collect();
+            let got_nick = Nickname::new().additional_mapping_rule(s.as_str()).map(|x| x.into_owned());
+            let got_op = OpaqueString::new().additional_mapping_rule(s.as_str()).map(|x| x.into_owned());
+            let diff = |a: &str, b: &str| a.bytes().zip(b.bytes()).position(|(x, y)| x != y).unwrap_or(a.len().min(b.len()));
+            match (got_nick, got_op) {
+                (Ok(a), Ok(b)) => {
+                    if a != want_nick { format!("MISMATCH:nickname rule differs from the reference at byte {} (lengths {} / {})", diff(&a, &want_nick), a.len(), want_nick.len()) }
+                    else if b != want_op { format!("MISMATCH:opaque rule differs from the reference at byte {}", diff(&b, &want_op)) }
+                    else { "ok".to_string() }
+                }
+                _ => "err".to_string(),
+            }
+        }
         "cmp" => {
             let e = parse_entry(arg(1));
             let cp: u32 = arg(2).parse().unwrap();
